@@ -329,6 +329,13 @@ Definition with_sare (r0 : bool) (lab : N) (wf : frame) (block : sare -> state -
       (s3, st3, out, out')
   end.
 
+(* <filter p>(x): the state afterwards and what it raised, if anything *)
+Definition do_filt_call (p : predspec) (x : option nat) (s : sare) (st : state) : state * option nat :=
+  match hrun FnFiltCall gen_filt_call (with_arg (hinit_state s st p) None x []) with
+  | (h, HRaise j) => (hst h, Some j)
+  | (h, _) => (hst h, None)
+  end.
+
 (* ------------------------------------------------------------------ the DSL of handler bodies *)
 
 (* argument of a direct call of a filter *)
@@ -387,9 +394,9 @@ Fixpoint exec (b : body) (s : sare) (st : state) : sare * state * outcome :=
                        | ANone => (st, None)
                        | AObj i => (st, Some i)
                        end in
-      match hrun FnFiltCall gen_filt_call (with_arg (hinit_state s st1 p) None x []) with
-      | (h, HRaise j) => (s, add_frame (FProg l) j (hst h), Raised j)
-      | (h, _) => (s, hst h, Normal)
+      match do_filt_call p x s st1 with
+      | (st2, Some j) => (s, add_frame (FProg l) j st2, Raised j)
+      | (st2, None) => (s, st2, Normal)
       end
   end.
 
@@ -444,3 +451,92 @@ Definition rwc (c : cls) (given : option (option nat)) (wf : frame) (st : state)
 (* the __cause__ ("raise ... from") of the object raise_with_cause raised *)
 Definition rwc_dunder_cause (st : state) (i : nat) : option nat :=
   if gen_rwc_raise_from_cause then ecause (heap st i) else None.
+
+(* ------------------------------------------------------------------ hand-written versions of the helpers
+   (what the translated bodies are proved equal to in Proofs/C09.v: the *_equiv lemmas) *)
+
+Definition sare_clear (s : sare) : sare := mksare (reraise s) (type_ s) None [] (slab s).
+
+(* if v.__traceback__ is not t: raise v.with_traceback(t)  /  raise v *)
+Definition raise_value (fn : hfn) (i : nat) (t : list frame) (st : state) : state :=
+  if tb_eqb (tb_of st i) t then add_frame (FHelper fn KVal) i st
+  else add_frame (FHelper fn KWtb) i (set_tb i t st).
+
+(* force_reraise always raises: returns the context afterwards, the state, the exception raised *)
+Definition force_hand (s : sare) (st : state) : sare * state * nat :=
+  match value s with
+  | Some i => (sare_clear s, raise_value FnForce i (tb s) st, i)
+  | None =>
+      match type_ s with
+      | None => let '(st', j) := alloc (mkobj cls_runtime [FHelper FnForce KRt] ONew None) st in (s, st', j)
+      | Some c =>
+          if ctor0 c then
+            let '(st1, i) := alloc (mkobj c [] ONew None) st in (sare_clear s, raise_value FnForce i (tb s) st1, i)
+          else
+            let '(st', j) := alloc (mkobj cls_type [FHelper FnForce KCtor] ONew None) st in (sare_clear s, st', j)
+      end
+  end.
+
+Definition capture_hand (chk : bool) (s : sare) (st : state) : sare * state * option nat :=
+  match hstack st with
+  | [] =>
+      if chk then let '(st', j) := alloc (mkobj cls_runtime [FHelper FnCapture KRt] ONew None) st in (s, st', Some j)
+      else (mksare (reraise s) None None [] (slab s), st, None)
+  | i :: _ => (mksare (reraise s) (Some (cls_of st i)) (Some i) (tb_of st i) (slab s), st, None)
+  end.
+
+(* the with statement at wf leaving a save_and_reraise_exception block that ended with [out] *)
+Definition exit_hand (wf : frame) (s : sare) (st : state) (out : outcome) : sare * state * outcome :=
+  match out with
+  | Raised i => (s, if reraise s then add_log (mklog (slab s) (type_ s) (value s) (tb s)) st else st, Raised i)
+  | Normal =>
+      if reraise s then
+        let '(s', st', j) := force_hand s st in
+        (s', add_frame wf j (add_frame (FHelper FnExit KCall) j st'), Raised j)
+      else (s, st, Normal)
+  end.
+
+(* the object a raising predicate raises, seen from the helper function fn *)
+Definition pred_exc (p : predspec) (fn : hfn) : eobj :=
+  mkobj (praise_cls p) (FHelper fn KCall :: puse p ++ [FPred]) (OSite (plab p)) None.
+
+(* the with statement at wf leaving an exception_filter block *)
+Definition filt_exit_hand (p : predspec) (wf : frame) (st : state) (out : outcome) : state * outcome :=
+  match out with
+  | Normal => (st, Normal)
+  | Raised i =>
+      match pv p (Some (cls_of st i)) with
+      | PFalsy => (st, Raised i)
+      | PTruthy => (st, Normal)
+      | PRaise => let '(st', j) := alloc (pred_exc p FnFiltExit) st in (add_frame wf j st', Raised j)
+      end
+  end.
+
+(* <filter p>(x) *)
+Definition filt_call_hand (p : predspec) (x : option nat) (st : state) : state * option nat :=
+  match pv p (option_map (cls_of st) x) with
+  | PTruthy => (st, None)
+  | PRaise => let '(st', j) := alloc (pred_exc p FnFiltCall) st in (st', Some j)
+  | PFalsy =>
+      let cur := hd_error (hstack st) in
+      if opt_nat_eqb cur x then
+        match cur with
+        | None => let '(st', j) := alloc (mkobj cls_type [FHelper FnFiltCall KCtor] ONew None) st in (st', Some j)
+        | Some i => (raise_value FnFiltCall i (tb_of st i) st, Some i)
+        end
+      else
+        match x with
+        | None => let '(st', j) := alloc (mkobj cls_type [FHelper FnFiltCall KVal] ONew None) st in (st', Some j)
+        | Some i => (add_frame (FHelper FnFiltCall KVal) i st, Some i)
+        end
+  end.
+
+(* the body does not call force_reraise()/capture() on the context it is the block of
+   (blocks of nested contexts are unconstrained: they have their own context) *)
+Fixpoint direct_free0 (b : body) : bool :=
+  match b with
+  | ForceReraise _ | CaptureDirect _ => false
+  | Seq a c | Try a c => direct_free0 a && direct_free0 c
+  | Filter _ _ a => direct_free0 a
+  | _ => true
+  end.
